@@ -558,10 +558,53 @@ class VC:
         self.unfold_cache[fuel] = (len(self.rec_insts), axioms)
         return axioms
 
-    def query(self, obl, fuel=1, noq=False):
+    def query(self, obl, fuel=1, noq=False, lite=False):
+        """lite: the unfoldings (and lemma instances) of the recursive spec functions the goal does not depend on are left out
+        (sound: fewer assumptions); returns None when that leaves nothing out"""
         from .smt import PRELUDE
         qinst = self.instantiate_qas(obl)
         rec_axioms = self.unfold_recs(fuel)
+        if lite:
+            import re as _re
+            names = lambda t: set(_re.findall(r'rec\.[A-Za-z0-9_]+', t))
+            want = names(obl.goal) | names(obl.guard)
+            ax_names = [names(a) for a in rec_axioms]
+            changed = True
+            keep = [False] * len(rec_axioms)
+            while changed:
+                changed = False
+                for i, ns in enumerate(ax_names):
+                    if not keep[i] and ns & want:
+                        keep[i] = True
+                        if not ns <= want:
+                            want |= ns
+                        changed = True
+            rec_axioms = [a for a, k in zip(rec_axioms, keep) if k]
+            # heap families (a field, an element sort, a global) the goal reads, through the definitions of its spec reads
+            fam_of = lambda t: set(_re.sub(r'(\$[A-Za-z]+\d*)?([!@]\d+)?$', '', x) for x in _re.findall(r'(?<![A-Za-z0-9_$.])[EHG]\.[^\s()|]+', t))
+            if getattr(self, '_defs', None) is None or self._defs[0] != len(self.lines):
+                d = {}
+                for l in self.lines:
+                    if isinstance(l, str) and l.startswith('(define-fun '):
+                        parts = l.split(' ', 4)
+                        if len(parts) == 5:
+                            d[parts[1]] = parts[4]
+                self._defs = (len(self.lines), d)
+            defs = self._defs[1]
+            text = obl.goal
+            seen_sp = set()
+            todo = [x for x in _re.findall(r'sp\$[^\s()|]+', text)]
+            while todo:
+                x = todo.pop()
+                if x in seen_sp or x not in defs:
+                    continue
+                seen_sp.add(x)
+                text += ' ' + defs[x]
+                todo.extend(_re.findall(r'sp\$[^\s()|]+', defs[x]))
+            fams = fam_of(text)
+            if not fams:
+                return None
+            lite_fams = (fams, fam_of)
         out = [PRELUDE]
         for es in sorted(self.seq_sorts):
             out.append(SEQ_DECL % {'s': es, 'smt': smt_sort(es)})
@@ -576,12 +619,17 @@ class VC:
             out.append('(assert %s)' % a)
         for a in rec_axioms:
             out.append('(assert %s)' % a)
+        if lite:
+            fams, fam_of = lite_fams
+            near = lambda a: (lambda fa: not fa or bool(fa & fams))(fam_of(a))
+        else:
+            near = lambda a: True
         for ai, a in enumerate(self.assumes[:obl.nassume]):
-            if not isinstance(a, tuple) and self.relevant(ai, obl):
+            if not isinstance(a, tuple) and self.relevant(ai, obl) and near(a):
                 out.append('(assert %s)' % a)
         seen = set()
         for a in qinst:
-            if a not in seen and a != 'true':
+            if a not in seen and a != 'true' and near(a):
                 seen.add(a)
                 out.append('(assert %s)' % a)
         if obl.expect == 'sat':
